@@ -236,6 +236,7 @@ func byteLayout(ev *tf.Eval, t *tf.Term, bufWrites map[string][]*tf.Term, starre
 
 // hashHelper describes one ComputeInputHash* method.
 type hashHelper struct {
+	Stores bool // writes the digest into the receiver (as opposed to handing it back)
 	Fn     *ssa.Function
 	Param  *types.Named
 	Layout []layoutItem
@@ -364,9 +365,41 @@ func checkC08(p *core.Program, r *core.Report) {
 		// digest stored with SetBytes into the public-input parameter field
 		okStore := false
 		var storeWhy = "the digest is never stored with (*big.Int).SetBytes"
+		hashT := ev.Resolve(hashEv.Term)
+		isDigest := func(t *tf.Term) bool {
+			// the hash itself, or the hash handed back by an inlined helper as (digest, error)
+			found := false
+			tf.Walk(t, func(x *tf.Term) bool {
+				if tf.Eq(x, hashT) {
+					found = true
+					return false
+				}
+				switch x.K {
+				case tf.KExtract, tf.KTuple, tf.KIte, tf.KPhi:
+					return true
+				}
+				return x == t
+			})
+			return found
+		}
+		nSetBytes := 0
 		for _, e := range events {
 			if callNameHasSuffix(e.Term, "math/big.Int).SetBytes") && len(e.Term.Args) == 2 {
-				if tf.Eq(ev.Resolve(e.Term.Args[1]), ev.Resolve(hashEv.Term)) {
+				if _, intoRecv := fieldOf(e.Term.Args[0], recv); intoRecv {
+					nSetBytes++
+				}
+			}
+		}
+		hh.Stores = nSetBytes > 0
+		if nSetBytes == 0 && fn.Signature.Results().Len() > 0 && !isErrorType(fn.Signature.Results().At(0).Type()) {
+			// a function that hands the digest back instead of storing it (an accessor, or the shared inner helper): the
+			// layout rules above apply to it; the storing rule applies to the helper that stores
+			r.OK("O8.2", name+": digest stored into the public-input field", p.Pos(hashEv.Instr.Pos()), "returns the digest, stores nothing")
+			continue
+		}
+		for _, e := range events {
+			if callNameHasSuffix(e.Term, "math/big.Int).SetBytes") && len(e.Term.Args) == 2 {
+				if isDigest(ev.Resolve(e.Term.Args[1])) {
 					if f, ok := fieldOf(e.Term.Args[0], recv); ok {
 						if pub := publicParamField(p, ctx, ps, pn); pub == f {
 							okStore = true
@@ -417,7 +450,7 @@ func isUint32Slice(t types.Type) bool {
 // proverFor finds the prover method taking *param.
 func proverFor(p *core.Program, ps, param *types.Named) *ssa.Function {
 	for _, fn := range p.RepoFuncs() {
-		if fn.Signature.Recv() == nil || namedOf(fn.Signature.Recv().Type()) != ps || delegateTarget(fn) != nil {
+		if fn.Signature.Recv() == nil || namedOf(fn.Signature.Recv().Type()) != ps || (delegateTarget(fn) != nil || composesProvers(fn)) {
 			continue
 		}
 		if pix := requestParamIndex(fn); pix >= 0 && namedOf(fn.Signature.Params().At(pix).Type()) == param && witnessCircuitType(fn) != nil {
@@ -515,7 +548,7 @@ func checkLayoutAgainstCircuit(p *core.Program, r *core.Report, ctx *circuitCtx,
 func checkGenTestParams(p *core.Program, r *core.Report, helpers []*hashHelper) {
 	helperObj := map[types.Object]bool{}
 	for _, h := range helpers {
-		if o := h.Fn.Object(); o != nil {
+		if o := h.Fn.Object(); o != nil && h.Stores {
 			helperObj[o] = true
 		}
 	}
